@@ -15,6 +15,17 @@ PROP = "C05"
 PROPS_MODULE = "BiotiteModel.Props.C05"
 EXT_MODULES = ["biotite.structure.io.pdbx.encoding"]
 GEN_FILES = ["BiotiteModel/Gen/C05.lean"]
+LEVEL_TEXT = ("Lean theorems, for arrays of every length: run-length, delta (with two's-complement wrap in every ≤32-bit dtype), "
+              "integer packing (1/2 bytes, signed/unsigned), byte-array, string-array and _safe_cast round trips; every chain "
+              "compress() can choose for an integer column round-trips (C05_compress_candidates_sound); fixed point is within half a "
+              "step when the scaled value fits int32 and interval quantisation within one step, over exact rationals. Partial: IEEE "
+              "rounding of float products/divisions, msgpack and the size-based choice inside compress() are not theorems — they are "
+              "exercised by the correspondence (exactly representable inputs) and by the round-trip/tolerance oracle on the real code.")
+LEVEL_NOTE = ("Trusted: Lean kernel + {propext, Classical.choice, Quot.sound}; harness/props/c05.py (generator, adapter, TypeCode table "
+              "translator); numpy casts/diff/cumsum/searchsorted/unique modelled by documented semantics; floats modelled as exact "
+              "rationals; msgpack trusted. encoding.pyx defects that cannot be rebuilt (FixedPoint overflow/NaN, Delta on int64, "
+              "ByteArray float64->float32) are known findings.")
+TECHNIQUE = "Lean 4 proof (induction over arrays, modular arithmetic, linear arithmetic over Q) + differential correspondence with encoding.pyx/compress.py"
 RULE = ("seeded arrays of every BinaryCIF integer dtype (boundary values, runs, empty, length 1) through "
         "RunLength/Delta/IntegerPacking/_safe_cast encode and decode, op by op against the Lean model; "
         "round-trip oracle decode(encode(x)) == x on the real code. non-trivial = array has >= 2 distinct "
@@ -76,6 +87,12 @@ def _values(rng, t, n):
 
 
 def cases(rng, tier):
+    yield from int_cases(rng, tier)
+    yield from ext_cases(rng, tier)
+    yield from float_cases(rng, tier)
+
+
+def int_cases(rng, tier):
     n_cases = 400 if tier == "quick" else 8000
     types = ["i8", "i16", "i32", "u8", "u16", "u32", "i64"]
     for _ in range(n_cases):
@@ -132,6 +149,108 @@ def cases(rng, tier):
                    "rt": {"enc": "bytes", "dtype": t, "dst": dst, "data": xs}}
 
 
+def _dyadic(rng, bits=10, frac=4):
+    from fractions import Fraction
+    return Fraction(rng.randint(-(2 ** bits), 2 ** bits), 2 ** rng.randint(0, frac))
+
+
+def _q(fr):
+    return str(fr.numerator) if fr.denominator == 1 else f"{fr.numerator}/{fr.denominator}"
+
+
+def _s(st):
+    return "~" if st == "" else ".".join(str(ord(c)) for c in st)
+
+
+def _strs(ss):
+    return ",".join(_s(x) for x in ss) if ss else "_"
+
+
+ALPH = ["A", "B", "CA", "N", "", " ", "x y", "\u00e9", "HOH", "'", '"', "1", "A"]
+
+
+def ext_cases(rng, tier):
+    """float / string / byte / chain ops (exactly representable inputs for the float ops)."""
+    from fractions import Fraction
+    n_cases = 300 if tier == "quick" else 6000
+    types = ["i8", "i16", "i32", "u8", "u16", "u32"]
+    for _ in range(n_cases):
+        kind = rng.choice(["fixed", "fixed_dec", "interval", "string", "string_dec", "bytes", "bytes_dec", "chain", "chain", "chain"])
+        n = rng.choice([0, 1, 2, 3, 5, 8, 20])
+        if kind == "fixed":
+            f = rng.choice([1, 2, 10, 100, 1000, Fraction(1, 4), 8])
+            ft = rng.choice(["f4", "f8"])
+            xs = [_dyadic(rng, 10 if ft == "f4" else 20) for _ in range(n)]
+            yield {"kind": "fixed", "ops": [f"fixed_enc {_q(Fraction(f))} {','.join(_q(x) for x in xs) if xs else '_'}"], "ft": ft,
+                   "rt": {"enc": "fixed", "factor": str(Fraction(f)), "ft": ft, "data": [str(x) for x in xs]}}
+        elif kind == "fixed_dec":
+            f = rng.choice([1, 2, 4, 16, 1024])
+            ks = [rng.randint(-2 ** 20, 2 ** 20) for _ in range(n)]
+            yield {"kind": "fixed_dec", "ops": [f"fixed_dec {f} {_ints(ks)}"], "ft": rng.choice(["f4", "f8"])}
+        elif kind == "interval":
+            steps = rng.choice([2, 3, 5, 9, 17])
+            mn = Fraction(rng.randint(-8, 8))
+            mx = mn + (steps - 1) * Fraction(1, 2 ** rng.randint(0, 3))
+            xs = [mn + (mx - mn) * Fraction(rng.randint(-2, 34), 32) for _ in range(n)]
+            yield {"kind": "interval", "ops": [f"interval_enc {_q(mn)} {_q(mx)} {steps} {','.join(_q(x) for x in xs) if xs else '_'}"],
+                   "rt": {"enc": "interval", "min": str(mn), "max": str(mx), "n": steps, "data": [str(x) for x in xs]}}
+        elif kind == "string":
+            ss = [rng.choice(ALPH) for _ in range(n)]
+            yield {"kind": "string", "ops": [f"string_enc {_strs(ss)}"], "rt": {"enc": "string", "data": ss}}
+        elif kind == "string_dec":
+            tbl = list(dict.fromkeys(rng.choice(ALPH) for _ in range(rng.randint(1, 4))))
+            idx = [rng.randint(0, len(tbl) + (1 if rng.random() < 0.2 else -1)) for _ in range(n)]
+            idx = [max(0, i) for i in idx]
+            yield {"kind": "string_dec", "ops": [f"string_dec {_strs(tbl)} {_ints(idx)}"]}
+        elif kind == "bytes":
+            t = rng.choice(types)
+            xs = _values(rng, t, n)
+            yield {"kind": "bytes", "ops": [f"bytes_enc {t} {_ints(xs)}"], "rt": {"enc": "bytes", "dtype": t, "dst": t, "data": xs}}
+        elif kind == "bytes_dec":
+            t = rng.choice(types)
+            bs = [rng.randint(0, 255) for _ in range(rng.randint(0, 9))]
+            yield {"kind": "bytes_dec", "ops": [f"bytes_dec {t} {_ints(bs)}"]}
+        else:
+            t = rng.choice(types)
+            xs = _values(rng, t, n)
+            c = rng.choice("d-") + rng.choice("r-") + rng.choice("012")
+            if c[2] != "0" or rng.random() < 0.5:
+                xs = [x if abs(x) < 100000 else x % 1000 for x in xs]     # keep packed streams (and model recursion) short
+            yield {"kind": "chain", "ops": [f"chain {c} {t} {_ints(xs)}"], "rt": {"enc": "compress_int", "dtype": t, "data": xs}}
+
+
+def float_cases(rng, tier):
+    """oracle-only: compress() on float columns, incl. the malformed stream (NaN, inf, huge, tiny, wide range)."""
+    n_cases = 120 if tier == "quick" else 3000
+    special = [float("nan"), float("inf"), float("-inf"), 3e9, -2.5e9, 1e8, 1e-12, 5e-324, 1e-310, 1e300, 0.0, -0.0, 2147483.647, 2147483.648]
+    for _ in range(n_cases):
+        ft = rng.choice(["f4", "f8"])
+        n = rng.choice([1, 2, 3, 6, 12, 40])
+        style = rng.choice(["coords", "coords", "occupancy", "wide", "special", "ints"])
+        if style == "coords":
+            xs = [round(rng.uniform(-500, 500), 3) for _ in range(n)]
+        elif style == "occupancy":
+            xs = [rng.choice([1.0, 0.5, 0.25, 0.33, 0.67]) for _ in range(n)]
+        elif style == "wide":
+            xs = [rng.uniform(-1, 1) * 10 ** rng.randint(-12, 9) for _ in range(n)]
+        elif style == "ints":
+            xs = [float(rng.randint(-10 ** rng.randint(0, 10), 10 ** rng.randint(0, 10))) for _ in range(n)]
+        else:
+            xs = [rng.choice(special) if rng.random() < 0.4 else round(rng.uniform(-50, 50), 2) for _ in range(n)]
+        tol = rng.choice([1e-6, 1e-6, 1e-3, 1e-9])
+        yield {"kind": "compress_float/" + style, "rt": {"enc": "compress_float", "ft": ft, "tol": tol, "data": [repr(x) for x in xs]}}
+    # malformed stream for the bare encodings (known findings live here)
+    for _ in range(30 if tier == "quick" else 600):
+        ft = rng.choice(["f4", "f8"])
+        xs = [rng.choice(special) if rng.random() < 0.5 else round(rng.uniform(-50, 50), 2) for _ in range(rng.randint(1, 5))]
+        yield {"kind": "fixed_malformed", "rt": {"enc": "fixed_float", "factor": rng.choice([1, 10, 1000]), "ft": ft, "data": [repr(x) for x in xs]}}
+        yield {"kind": "bytes_float", "rt": {"enc": "bytes_float", "data": [repr(x) for x in xs]}}
+    # whole files: columns with masks, strings, ints, floats
+    for _ in range(20 if tier == "quick" else 300):
+        n = rng.choice([1, 2, 5, 9])
+        yield {"kind": "file", "rt": {"enc": "file", "n": n, "seed": rng.randint(0, 10 ** 9)}}
+
+
 def corpus():
     return [
         {"kind": "rle", "ops": ["rle_enc u32 - 4294967295,4294967295,0"], "rt": {"enc": "rle", "dtype": "u32", "data": [4294967295, 4294967295, 0]}},
@@ -186,53 +305,292 @@ def run_impl(case):
         elif w[0] == "safe_cast":
             a, b, xs = w[1], w[2], _parse(w[3])
             out.append(_fmt(lambda: "ok " + _ints(E._safe_cast(np.array(xs, dtype=NP[a]), np.dtype(NP[b])))))
+        elif w[0] == "fixed_enc":
+            from fractions import Fraction
+            f = Fraction(w[1])
+            dt = np.float32 if case.get("ft") == "f4" else np.float64
+            xs = [Fraction(x) for x in ([] if w[2] == "_" else w[2].split(","))]
+            arr = np.array([float(x) for x in xs], dtype=dt)
+            fac = float(f) if f.denominator != 1 else int(f)
+            # the model rounds the exact product; only compare when the float product is exact
+            exact = all(Fraction(float(a)) == x for a, x in zip(arr, xs)) and \
+                all(Fraction(float(p)) == x * f for p, x in zip(arr * fac, xs))
+            fits = all(abs(x * f) < 2 ** 31 - 1 for x in xs)
+            if not exact:
+                out.append("inexact-skip")
+            elif not fits:
+                out.append("unmodelled")
+            else:
+                out.append(_fmt(lambda: "ok " + _ints(E.FixedPointEncoding(factor=fac).encode(arr))))
+        elif w[0] == "fixed_dec":
+            from fractions import Fraction
+            f, ks = int(w[1]), _parse(w[2])
+            dt = np.float32 if case.get("ft") == "f4" else np.float64
+
+            def fd():
+                r = E.FixedPointEncoding(factor=f, src_type=dt).decode(np.array(ks, dtype=np.int32))
+                qs = [Fraction(float(x)) for x in r]
+                return "ok " + (",".join(_q(x) for x in qs) if qs else "_")
+            out.append(_fmt(fd))
+        elif w[0] == "interval_enc":
+            from fractions import Fraction
+            mn, mx, n = Fraction(w[1]), Fraction(w[2]), int(w[3])
+            xs = [Fraction(x) for x in ([] if w[4] == "_" else w[4].split(","))]
+            out.append(_fmt(lambda: "ok " + _ints(E.IntervalQuantizationEncoding(float(mn), float(mx), n).encode(np.array([float(x) for x in xs], dtype=np.float64)))))
+        elif w[0] == "string_enc":
+            ss = _unstrs(w[1])
+
+            def fs():
+                enc = E.StringArrayEncoding(data_encoding=[], offset_encoding=[])
+                idx = enc.encode(np.array(ss, dtype="U"))
+                ser = enc.serialize()
+                return f"ok {_strs([str(x) for x in enc.strings])} {_ints(idx)} {_ints(ser['offsets'])}"
+            out.append(_fmt(fs))
+        elif w[0] == "string_dec":
+            tbl, idx = _unstrs(w[1]), _parse(w[2])
+            out.append(_fmt(lambda: "ok " + _strs([str(x) for x in E.StringArrayEncoding(strings=np.array(tbl, dtype="U"), data_encoding=[]).decode(np.array(idx, dtype=np.int32))])))
+        elif w[0] == "bytes_enc":
+            t, xs = w[1], _parse(w[2])
+            out.append(_fmt(lambda: "ok " + _ints(list(E.ByteArrayEncoding().encode(np.array(xs, dtype=NP[t]))))))
+        elif w[0] == "bytes_dec":
+            t, bs = w[1], _parse(w[2])
+            out.append(_fmt(lambda: "ok " + _ints(E.ByteArrayEncoding(type=np.dtype(NP[t])).decode(bytes(bs)))))
+        elif w[0] == "chain":
+            c, t, xs = w[1], w[2], _parse(w[3])
+
+            def fc():
+                encs = ([E.DeltaEncoding()] if c[0] == "d" else []) + ([E.RunLengthEncoding()] if c[1] == "r" else []) + \
+                    ([E.IntegerPackingEncoding(int(c[2]))] if c[2] != "0" else [])
+                try:
+                    stream = E.encode_stepwise(np.array(xs, dtype=NP[t]), encs)
+                except Exception:
+                    return "rejected"
+                dec = E.decode_stepwise(stream, encs)
+                return f"ok {_ints(stream)} -> {_ints(dec)}"
+            out.append(_fmt(fc))
         else:
             out.append("bad-op")
     return out
 
 
+def _unstrs(s):
+    if s == "_":
+        return []
+    return ["" if x == "~" else "".join(chr(int(c)) for c in x.split(".")) for x in s.split(",")]
+
+
 # ---------------------------------------------------------------- property oracle (independent of the model)
+def _same_float(a, b):
+    import math
+    if math.isnan(a) or math.isnan(b):
+        return math.isnan(a) and math.isnan(b)
+    return a == b
+
+
 def oracle(case):
-    """decode(encode(x)) == x on the real code, or a rejection; never a silently different array."""
+    """decode(encode(x)) == x on the real code (within the stated precision for floats), or a rejection;
+    never a silently different array.  Written from the property statement only."""
+    import math
+    from fractions import Fraction
+
     import numpy as np
+    from biotite.structure.io.pdbx import bcif
+    from biotite.structure.io.pdbx import compress as _compress_fn
     from biotite.structure.io.pdbx import encoding as E
 
     rt = case.get("rt")
     if not rt:
         return []
-    data = rt["data"]
+    data = rt["data"] if "data" in rt else None
+    kind = rt["enc"]
     v = []
-    try:
-        if rt["enc"] == "rle":
-            arr = np.array(data, dtype=NP[rt["dtype"]])
-            enc = E.RunLengthEncoding()
+    if kind in ("rle", "delta", "pack", "bytes"):
+        try:
+            if kind == "rle":
+                arr = np.array(data, dtype=NP[rt["dtype"]])
+                enc = E.RunLengthEncoding()
+            elif kind == "delta":
+                arr = np.array(data, dtype=NP[rt["dtype"]])
+                enc = E.DeltaEncoding()
+            elif kind == "pack":
+                arr = np.array(data, dtype=np.int32)
+                enc = E.IntegerPackingEncoding(byte_count=rt["bc"], is_unsigned={"u": True, "s": False, "a": None}[rt["u"]])
+            else:
+                arr = np.array(data, dtype=NP[rt["dtype"]])
+                enc = E.ByteArrayEncoding(type=np.dtype(NP[rt["dst"]]))
             back = enc.decode(enc.encode(arr))
-        elif rt["enc"] == "delta":
-            arr = np.array(data, dtype=NP[rt["dtype"]])
-            enc = E.DeltaEncoding()
+        except Exception:
+            return []          # rejected: allowed by the property
+        if len(back) != len(data) or any(int(a) != int(b) for a, b in zip(back, data)):
+            if kind == "delta" and rt["dtype"] == "i64":
+                key = "C05/DeltaEncoding/int64-differences-exceed-int32"
+            else:
+                key = f"C05/{kind}/roundtrip"
+            v.append((key, f"{rt} decodes to {[int(x) for x in back][:12]}"))
+    elif kind == "fixed":
+        f = Fraction(rt["factor"])
+        dt = np.float32 if rt["ft"] == "f4" else np.float64
+        xs = [Fraction(x) for x in data]
+        arr = np.array([float(x) for x in xs], dtype=dt)
+        try:
+            enc = E.FixedPointEncoding(factor=float(f) if f.denominator != 1 else int(f))
             back = enc.decode(enc.encode(arr))
-        elif rt["enc"] == "pack":
-            arr = np.array(data, dtype=np.int32)
-            enc = E.IntegerPackingEncoding(byte_count=rt["bc"], is_unsigned={"u": True, "s": False, "a": None}[rt["u"]])
-            back = enc.decode(enc.encode(arr))
-        elif rt["enc"] == "bytes":
-            arr = np.array(data, dtype=NP[rt["dtype"]])
-            enc = E.ByteArrayEncoding(type=np.dtype(NP[rt["dst"]]))
-            back = enc.decode(enc.encode(arr))
-        else:
+        except Exception:
             return []
-    except Exception:
-        return []          # rejected: allowed by the property
-    if len(back) != len(data) or any(int(a) != int(b) for a, b in zip(back, data)):
-        if rt["enc"] == "delta" and rt["dtype"] == "i64":
-            key = "C05/DeltaEncoding/int64-differences-exceed-int32"
-        else:
-            key = f"C05/{rt['enc']}/roundtrip"
-        v.append((key, f"{rt} decodes to {[int(x) for x in back][:12]}"))
+        for a, b in zip(arr, back):
+            tol = Fraction(1, 2) / f + abs(Fraction(float(a))) * Fraction(1, 2 ** 22)
+            if not math.isfinite(b) or abs(Fraction(float(b)) - Fraction(float(a))) > tol:
+                key = "C05/FixedPointEncoding/overflow-or-nonfinite" if (not math.isfinite(a) or abs(Fraction(float(a)) * f) >= 2 ** 31 - 1) else "C05/fixed/precision"
+                v.append((key, f"FixedPoint(factor={f}) {float(a)!r} -> {float(b)!r}"))
+                break
+    elif kind == "interval":
+        mn, mx, n = Fraction(rt["min"]), Fraction(rt["max"]), rt["n"]
+        xs = [Fraction(x) for x in data]
+        enc = E.IntervalQuantizationEncoding(float(mn), float(mx), n)
+        arr = np.array([float(x) for x in xs], dtype=np.float64)
+        try:
+            back = enc.decode(enc.encode(arr))
+        except Exception:
+            return []
+        step = (mx - mn) / (n - 1)
+        for x, b in zip(xs, back):
+            if mn <= x <= mx and not (0 <= Fraction(float(b)) - x < step):
+                v.append(("C05/interval/precision", f"IntervalQuantization({mn},{mx},{n}) {x} -> {b}"))
+                break
+    elif kind == "string":
+        arr = np.array(data, dtype="U")
+        try:
+            d = bcif.BinaryCIFData(arr)
+            back = bcif.BinaryCIFData.deserialize(d.serialize()).array
+            c = _compress_fn(bcif.BinaryCIFData(arr))
+            back2 = bcif.BinaryCIFData.deserialize(c.serialize()).array
+        except Exception:
+            return []
+        for bk, name in ((back, "StringArray"), (back2, "compress/StringArray")):
+            if [str(x) for x in bk] != list(data):
+                v.append((f"C05/{name}/roundtrip", f"{data} -> {[str(x) for x in bk]}"))
+    elif kind == "compress_int":
+        arr = np.array(data, dtype=NP[rt["dtype"]])
+        try:
+            c = _compress_fn(bcif.BinaryCIFData(arr))
+            back = bcif.BinaryCIFData.deserialize(c.serialize()).array
+        except Exception:
+            return []
+        if len(back) != len(data) or any(int(a) != int(b) for a, b in zip(back, data)):
+            v.append(("C05/compress/int-roundtrip", f"{rt} -> {[int(x) for x in back][:12]} via {[type(e).__name__ for e in c.encoding]}"))
+    elif kind == "compress_float":
+        dt = np.float32 if rt["ft"] == "f4" else np.float64
+        with np.errstate(over="ignore"):
+            arr = np.array([float(x) for x in data], dtype=dt)
+        tol = rt["tol"]
+        from common import sandbox
+        res = sandbox.run_forked(_compress_float, [float(x) for x in arr], rt["ft"], tol, timeout=6)
+        if res[0] == "timeout":
+            return [("C05/compress/float-hang", f"compress() does not terminate on {data}")]
+        if res[0] != "ok":
+            return []     # exception: rejected
+        back, encs = res[1]
+        eps = 2.0 ** -23 if rt["ft"] == "f4" else 2.0 ** -52
+        for a, b in zip([float(x) for x in arr], back):
+            if _same_float(a, b):
+                continue
+            if math.isfinite(a) and math.isfinite(b) and abs(b - a) <= (tol + 4 * eps) * abs(a):
+                continue
+            v.append(("C05/compress/float-corrupted", f"compress(tol={tol}) {a!r} -> {b!r} in {data} via {encs}"))
+            break
+    elif kind == "fixed_float":
+        dt = np.float32 if rt["ft"] == "f4" else np.float64
+        with np.errstate(all="ignore"):
+            arr = np.array([float(x) for x in data], dtype=dt)
+            try:
+                enc = E.FixedPointEncoding(factor=rt["factor"])
+                back = enc.decode(enc.encode(arr))
+            except Exception:
+                return []
+        for a, b in zip([float(x) for x in arr], [float(x) for x in back]):
+            if _same_float(a, b) or (math.isfinite(a) and math.isfinite(b) and abs(b - a) <= 0.5 / rt["factor"] + abs(a) * 2.0 ** -22):
+                continue
+            bad = (not math.isfinite(a)) or abs(a * rt["factor"]) >= 2 ** 31 - 1
+            key = "C05/FixedPointEncoding/overflow-or-nonfinite" if bad else "C05/fixed/precision"
+            v.append((key, f"FixedPoint(factor={rt['factor']}) {a!r} -> {b!r}"))
+            break
+    elif kind == "bytes_float":
+        with np.errstate(all="ignore"):
+            arr = np.array([float(x) for x in data], dtype=np.float64)
+            try:
+                enc = E.ByteArrayEncoding(type=np.float32)
+                back = enc.decode(enc.encode(arr))
+            except Exception:
+                return []
+        for a, b in zip([float(x) for x in arr], [float(x) for x in back]):
+            # requested float32 storage: float32 precision (relative 2^-23, absolute 2^-126 for underflow) is the stated precision
+            if _same_float(a, b) or (math.isfinite(a) and math.isfinite(b) and abs(b - a) <= abs(a) * 2.0 ** -23 + 2.0 ** -126):
+                continue
+            key = "C05/ByteArrayEncoding/float64-to-float32-overflow" if (math.isfinite(a) and not math.isfinite(b)) else "C05/bytes_float/roundtrip"
+            v.append((key, f"ByteArray(FLOAT32) {a!r} -> {b!r}"))
+            break
+    elif kind == "file":
+        v += _file_roundtrip(rt)
     return v
 
 
+def _compress_float(xs, ft, tol):
+    import numpy as np
+    from biotite.structure.io.pdbx import bcif
+    from biotite.structure.io.pdbx import compress as _compress_fn
+    arr = np.array(xs, dtype=np.float32 if ft == "f4" else np.float64)
+    c = _compress_fn(bcif.BinaryCIFData(arr), float_tolerance=tol)
+    back = bcif.BinaryCIFData.deserialize(c.serialize()).array
+    return [float(x) for x in back], [type(e).__name__ for e in c.encoding]
+
+
+def _file_roundtrip(rt):
+    """BinaryCIFFile with int/float/string columns and masks: write -> read (plain and compressed) equal."""
+    import io
+    import random
+
+    import numpy as np
+    from biotite.structure.io.pdbx import bcif
+    from biotite.structure.io.pdbx import compress as _compress_fn
+    r = random.Random(rt["seed"])
+    n = rt["n"]
+    cat = bcif.BinaryCIFCategory()
+    cols = {}
+    for name in ("i", "f", "s", "m"):
+        if name == "i":
+            arr = np.array([r.randint(-5000, 5000) for _ in range(n)], dtype=r.choice([np.int32, np.int64, np.uint8 if False else np.int16]))
+        elif name == "f":
+            arr = np.array([round(r.uniform(-99, 99), 3) for _ in range(n)], dtype=np.float32)
+        else:
+            arr = np.array([r.choice(["A", "BB", "", "x y", "HOH"]) for _ in range(n)], dtype="U")
+        mask = None
+        if name == "m":
+            mask = np.array([r.choice([0, 0, 1, 2]) for _ in range(n)], dtype=np.uint8)
+        cols[name] = (arr, mask)
+        cat[name] = bcif.BinaryCIFColumn(arr, mask)
+    f = bcif.BinaryCIFFile()
+    blk = bcif.BinaryCIFBlock()
+    blk["cat"] = cat
+    f["blk"] = blk
+    out = []
+    for label, ff in (("plain", f), ("compressed", _compress_fn(f))):
+        buf = io.BytesIO()
+        ff.write(buf)
+        buf.seek(0)
+        g = bcif.BinaryCIFFile.read(buf)
+        for name, (arr, mask) in cols.items():
+            col = g["blk"]["cat"][name]
+            got = col.data.array
+            ok = len(got) == len(arr) and all((str(a) == str(b)) if arr.dtype.kind == "U" else (abs(float(a) - float(b)) <= 2e-6 * abs(float(a)) + 1e-12) for a, b in zip(arr, got))
+            mk = None if col.mask is None else [int(x) for x in col.mask.array]
+            if not ok or (mask is not None and mk != [int(x) for x in mask]) or (mask is None and mk is not None and any(mk)):
+                out.append((f"C05/file/{label}-roundtrip", f"column {name}: {arr.tolist()} mask {mask} -> {got.tolist()} mask {mk}"))
+    return out
+
+
 def nontrivial(case, impl_out):
+    if case["kind"] == "file":
+        return True
     data = (case.get("rt") or {}).get("data")
     if data is not None and len(set(data)) >= 2:
         return True
@@ -240,7 +598,7 @@ def nontrivial(case, impl_out):
 
 
 def signature(case):
-    return "|".join(case["ops"])
+    return "|".join(case.get("ops") or []) + repr(case.get("rt"))
 
 
 def distribution(cases, impl_outs):
